@@ -864,6 +864,11 @@ fn c10(rng: &mut Rng, out: &mut Out) {
         v[1] = Cmplx::new(-3.0, 0.0); cases.push(v.clone());                                                                                  // x^n - 3x - c
         v[1] = Cmplx::new(0.0, 0.0); v[n] = Cmplx::new(2.5, 0.0); v[n / 2] = Cmplx::new(1.0, 0.0); cases.push(v);                             // 2.5 x^n + x^(n/2) - c
     } }
+    // one huge root next to small ones (coefficient ratio 1e6 between neighbouring terms): deflating the huge root must not spoil the rest
+    for n in 4..=12usize { for (a, bq) in [(0.001, 1000.0), (1.0, 1000.0), (1.0, -1.0e6), (0.001, -1000.0), (0.001, 1.0)] { for c0 in [-1.0, 1.0, 0.5, -1000.0] {
+        let mut v = vec![Cmplx::new(0.0, 0.0); n + 1]; v[0] = Cmplx::new(c0, 0.0); v[n] = Cmplx::new(a, 0.0); v[n - 1] = Cmplx::new(bq, 0.0); cases.push(v.clone());
+        v[1] = Cmplx::new(3.0, 0.0); cases.push(v.clone()); v[0] = Cmplx::new(0.0, c0); cases.push(v);
+    } } }
     for c in cases { for refine in [false, true] { case();
         let deg = c.len() - 1;
         let ctx = format!("coeffs={:?} refine={}", c.iter().map(|z| (z.real, z.imag)).collect::<Vec<_>>(), refine);
